@@ -477,7 +477,8 @@ func init() {
 					return b2i(r.Stats.Revisits > 0)*2 + b2i(r.Stats.RevisitSuccess > 0)*2 + b2i(r.Stats.RevisitInLookahead > 0) + b2i(!r.OK && r.ErrTok != nil)
 				})}
 		},
-		SkipCase: func(cs *lab.Case) bool { return cs.G.Count(gram.KState) > 0 },
+		SkipCase:   func(cs *lab.Case) bool { return cs.G.Count(gram.KState) > 0 },
+		ReuseModes: []proto.Mode{memoMode, noMemoMode},
 		Modes: func(c *drv.Ctx, pt *Point, v lab.Variant) []proto.Mode {
 			if pt.Ref.Budget || pt.Ref.Stats.Steps > memoFreeBudget(c) {
 				c.Stats.Class("skipped_exponential_without_memo")
@@ -634,6 +635,7 @@ func init() {
 					return s
 				})}
 		},
+		ReuseModes: []proto.Mode{memoMode},
 		Modes: func(c *drv.Ctx, pt *Point, v lab.Variant) []proto.Mode {
 			return []proto.Mode{memoMode, prettyMode}
 		},
